@@ -2277,6 +2277,8 @@ func c20Report(o *vOut, res *c20Result) {
 	for _, k := range ucb {
 		o.stat("untraced_callback_under_lock: "+k, 1)
 	}
+	// --- (iii) joined goroutine hand-offs
+	c20ReportHandoffs(o, x)
 	for k, v := range x.stats {
 		o.stat(k, v)
 	}
